@@ -981,3 +981,28 @@ def r12(rr, repo):
               witness=f'stored: {bool(stored)}, returned: {bool(ret)}', key='chain-result-stored')
     else:
         rr.unresolved('execute_xforms: the chain loop was not recognised', mod, exe, key='chain-result-stored')
+
+
+@rule('C17.R13', "a box is drawn in the colour that was asked for: '#rgb' stands for '#rrggbb' with every digit doubled, '#rrggbb' is three bytes - decided by evaluating the configuration's own colour "
+                 "expression on colours of both lengths, among them six-digit colours with leading zero bytes (which a parse by numeric VALUE instead of by the number of digits written takes for "
+                 "the short form: '#000080' would become '#080')")
+def r13(rr, repo):
+    from ..peval import PEval, Lit, Lst, Undecided, Raised
+    mod, nc = repo.find(f'{UT}::Util.normalize_config')
+    unpack = [n for n in ast.walk(nc) if isinstance(n, ast.Assign) and isinstance(n.targets[0], ast.Tuple) and isinstance(n.value, ast.Call) and U(n.value.func).endswith('.groups') and len(n.targets[0].elts) == 5]
+    if not unpack:
+        raise Unresolved(f'{UT}: the box arguments are no longer unpacked from a five-group match')
+    cname = U(unpack[0].targets[0].elts[4])
+    stores = [n for n in ast.walk(nc) if isinstance(n, ast.Assign) and any(U(t).endswith('.color') for t in n.targets) and any(isinstance(x, ast.Name) and x.id == cname for x in ast.walk(n.value))]
+    rr.floor('stores of the box colour parsed from the configuration text', len(stores), 1, mod, nc)
+    def want(c):
+        return tuple(int(ch * 2, 16) for ch in c) if len(c) == 3 else (int(c[:2], 16), int(c[2:4], 16), int(c[4:], 16))
+    for st in stores:
+        for c in ('f00', '246', '080', 'fff', '000', 'fdb975', '000080', '000fff', '00000a', '001000', '0a0b0c', 'ffffff', '000000', '100000'):
+            try:
+                v = PEval({cname: Lit(c)}).ev(st.value)
+            except (Undecided, Raised) as exc:
+                rr.unresolved(f"the colour expression could not be evaluated for '#{c}'", mod, st, witness=str(exc)[:100], key=f'box-colour|{c}')
+                continue
+            got = tuple(x.v for x in v.items) if isinstance(v, Lst) and all(isinstance(x, Lit) for x in v.items) else None
+            rr.ob(f"'#{c}' is the colour {want(c)}", got == want(c), mod, st, witness=f'-> {v!r}', key=f'box-colour|{c}')
